@@ -15,6 +15,7 @@ Theorem C01_once_in_order : forall (C X : Type) (m : rs X -> line C -> rs X * bo
     unmatched C X r = unmatched C X a ++
        (if collecting c && unmatched_avail c then sel C (map (fun e => negb (ev_returned e)) t') (firstn (length t') recs) else []).
 Proof. exact fold_partition. Qed.
+Print Assumptions C01_once_in_order.
 
 (** ... and in the default return mode that decision is "offered by the scan part and voted for by the match part" *)
 Theorem C01_returned_iff_vote : forall (C X : Type) (m : rs X -> line C -> rs X * bool) c s l, cwnm c = false ->
@@ -67,26 +68,32 @@ Theorem C01_and_mode : forall q blanks cs s l,
 Proof.
   intros. rewrite (seq_eval_and q blanks cs s false l). split; [intros [H|H]; [discriminate|exact H]|intros H; right; exact H].
 Qed.
+Print Assumptions C01_and_mode.
 
 (** the operators mean what the documentation says (clean model) *)
 Theorem C01_comparison_operators : forall a b,
   cmp_num clean Gt a b = (b <? a) /\ cmp_num clean Gte a b = (b <=? a) /\ cmp_num clean Lt a b = (a <? b) /\ cmp_num clean Lte a b = (a <=? b).
 Proof. exact cmp_meaning. Qed.
+Print Assumptions C01_comparison_operators.
 Theorem C01_between : forall bl s l x a b, beval clean bl s l (BBetween x a b) = true <->
   Z.min (fst (neval bl s l a)) (fst (neval bl s l b)) < fst (neval bl s l x) < Z.max (fst (neval bl s l a)) (fst (neval bl s l b)).
 Proof. exact between_meaning. Qed.
+Print Assumptions C01_between.
 Theorem C01_numeric_cells : forall bl s l o i j,
   beval clean bl s l (BCmp o (NHdr i) (NHdr j)) = cmp_num clean o (fst (neval bl s l (NHdr i))) (fst (neval bl s l (NHdr j))).
 Proof. exact numeric_cells_compare_as_numbers. Qed.
+Print Assumptions C01_numeric_cells.
 
 (** D1 (open finding): lt/below/before answer <= ; D2 (fixed in /repo): CSV cells compared as strings *)
 Theorem C01_lt_is_le_refuted : cmp_num (mkQ true false false) Lt 10 10 = true /\ cmp_num clean Lt 10 10 = false.
 Proof. exact lt_is_le_refuted. Qed.
+Print Assumptions C01_lt_is_le_refuted.
 Theorem C01_string_compare_refuted :
   let s := rs0 mx (mkMx [] [] []) in
   beval (mkQ false true false) [] s [[57]; [49; 48]] (BCmp Gt (NHdr 0) (NHdr 1)) = true /\
   beval clean [] s [[57]; [49; 48]] (BCmp Gt (NHdr 0) (NHdr 1)) = false.
 Proof. exact string_compare_refuted. Qed.
+Print Assumptions C01_string_compare_refuted.
 
 Example C01_nonvacuous :
   (* [ gt(#1, #2)  @v = add(#1, 1)  lt(@v, 12) ] over a 5-record ragged file with a blank record *)
